@@ -47,12 +47,22 @@ def run(rep):
             for k in (1, 7):
                 shifted.append({"id": "%s+%d" % (c["id"], k), "fam": c["fam"], "par": dict(c["par"], shift=k), "prog": c["prog"],
                                 "dl": k, "dc": k, "base": c["id"], "k": k})
-    allc = cases + shifted
+    # seeded random programs with throws, try/catch/finally and callbacks (same generator as C05, other seed stream)
+    nrand = int(os.environ.get("C07_NRAND", "200" if rep.tier == "quick" else "3000"))
+    rnd = random.Random(rep.seed * 7919 + 7)
+    rcases = [{"id": "r%d" % i, "fam": "RND", "par": {"seed": rep.seed, "n": i}, "prog": c05_gen.random_program(rnd, throwy=True)}
+              for i in range(nrand)]
+    allc = cases + shifted + rcases
     results = c05.run_engine(rep, allc)
     recs = [{"id": c["id"], "prog": c["prog"], "log": results[c["id"]]["log"], "out": results[c["id"]]["out"],
              "pos": results[c["id"]]["pos"]} for c in allc]
-    verdicts = c05.judge(rep, "C07", recs)
+    verdicts = c05.judge(rep, "C07", recs, enumerated=False)
+    for c in cases + shifted:
+        if verdicts[c["id"]]["v"] == "skip":
+            raise Machinery("reference machine could not run an enumerated program (%s): %s" % (verdicts[c["id"]].get("why"), c["par"]))
     c05.report(rep, allc, results, verdicts)
+    # code -> spec: instruction traces of the enumerated programs against the JsVM throw rule (JsVM_Trace)
+    c05.trace_stage(rep, cases, int(os.environ.get("C07_NTRACE", "300" if rep.tier == "quick" else "2000")))
     # shift law, judged on pairs (base rendering, shifted rendering)
     srecs = []
     for c in shifted:
@@ -60,7 +70,7 @@ def run(rep):
         srecs.append({"id": c["id"], "prog": c["prog"], "devs": [], "k": c["k"],
                       "base": {"log": b["log"], "out": b["out"]}, "shifted": {"log": s["log"], "out": s["out"]}})
     if srecs:
-        sv, st, tr, wall = tlc.judge(rep.pid, "C07", srecs, SHIFT_CFG, shards=min(16, max(1, len(srecs) // 25)), tag="judge_shift")
+        sv, st, tr, wall = tlc.judge(rep.pid, "C07", srecs, SHIFT_CFG, shards=min(c05.SHARDS, max(1, len(srecs) // 25)), tag="judge_shift")
         rep.add_judge(len(srecs), st, tr)
         got = {v["id"]: v for v in sv}
         if len(got) != len(srecs):
@@ -76,22 +86,13 @@ def run(rep):
                 rep.mismatch("shift law " + c05.key(byid[sid]["par"]), {"case": byid[sid]["par"], "k": byid[sid]["k"],
                              "base": results[byid[sid]["base"]]["log"], "shifted": results[sid]["log"]}, dev="")
         rep.spaces.append({"space": "shift law: programs reporting locations x k in {1, 7}", "cases": len(srecs), "complete": True})
-    # seeded random programs with throws, try/catch/finally and callbacks (same generator as C05, other seed stream)
-    nrand = int(os.environ.get("C07_NRAND", "200" if rep.tier == "quick" else "3000"))
-    rnd = random.Random(rep.seed * 7919 + 7)
-    rcases = [{"id": "r%d" % i, "fam": "RND", "par": {"seed": rep.seed, "n": i}, "prog": c05_gen.random_program(rnd, throwy=True)}
-              for i in range(nrand)]
-    rresults = c05.run_engine(rep, rcases, tag="eng_rnd")
-    rrecs = [{"id": c["id"], "prog": c["prog"], "log": rresults[c["id"]]["log"], "out": rresults[c["id"]]["out"],
-              "pos": rresults[c["id"]]["pos"]} for c in rcases]
-    rverdicts = c05.judge(rep, "C07", rrecs, tag="judge_rnd", enumerated=False)
-    c05.report(rep, rcases, rresults, rverdicts)
+    rverdicts = {c["id"]: verdicts[c["id"]] for c in rcases}
     skipped = sum(1 for v in rverdicts.values() if v["v"] == "skip")
     if nrand and skipped * 3 > nrand:
         raise Machinery("%d of %d random programs fall outside the step bound" % (skipped, nrand))
     rep.spaces.append({"space": "seeded random programs rich in throw / try / finally / callbacks", "cases": nrand,
                        "judged": nrand - skipped, "complete": False})
-    rep.evaluations = len(recs) + len(srecs) + len(rrecs)
+    rep.evaluations = len(recs) + len(srecs)
     rep.exhaustive = True
     rep.assumptions += ["MiniJS.tla is the ECMAScript strict-mode semantics of the fragment (DESIGN 4.2, 4.4)",
                         "a reported location is right if it is the position of the faulting node or of the statement containing it",
